@@ -236,6 +236,27 @@ def run_impl(project, keep=False, extra_env=None):
             shutil.rmtree(d, ignore_errors=True)
 
 
+def run_impl_seq(project, arg_list):
+    """the same project, several command lines one after the other in ONE directory (global mode): each result has the dump of that
+    run (empty when it was served from the cache), the ninja file as it is after the run, and `hit`"""
+    os.makedirs(SCRATCH, exist_ok=True)
+    d = tempfile.mkdtemp(prefix="w", dir=SCRATCH)
+    out = []
+    try:
+        write_project(d, project["files"])
+        for args in arg_list:
+            r = run_laze(d, args, retry=False, timeout=160)
+            r["dump"] = read_dump(d)
+            nf = os.path.join(d, "build", "build-global.ninja")
+            r["ninja"] = open(nf).read() if os.path.exists(nf) else None
+            r["root"] = os.path.realpath(d)
+            r["hit"] = "laze: reading cache took" in (r["stdout"] or "")
+            out.append(r)
+        return out
+    finally:
+        shutil.rmtree(d, ignore_errors=True)
+
+
 # ------------------------------------------------------------------ canonicalisation
 
 def canon_impl_ninja(txt):
